@@ -472,7 +472,11 @@ func (r *replication) onLeaderUpdate(u leaderUpdate, req *appendReq) {
 	if trace {
 		println(r, u)
 	}
-	if u.log.PrevIndex() > r.log.PrevIndex() {
+	// the leader discards its log up to leader.removeLTE once every replication reported
+	// a view starting there. onSnapshotTaken may also lower that bound (a lagging follower
+	// came back), so report whenever the view start changes, not only when it grows:
+	// otherwise the leader keeps the stale higher report and compacts under this view
+	if u.log.PrevIndex() != r.log.PrevIndex() {
 		r.notifyLdr(removeLTE{u.log.PrevIndex()})
 	}
 	r.log = u.log
